@@ -846,8 +846,10 @@ class FlatSamplerCache:
 
     def get_flat_sampler(self, *args, **kwargs):
         """Get or create the flattened sampler for these arguments."""
-        # Simple caching based on argument signature
-        args_sig = (len(args), tuple(kwargs.keys()))
+        # Cache on everything the staged sampler depends on: the pytree structure of the call
+        # (number of arguments, keyword names, static data) and the abstract value of every leaf
+        leaves, treedef = jtu.tree_flatten((args, kwargs))
+        args_sig = (treedef, tuple(get_shaped_aval(leaf) for leaf in leaves))
         if self._cached_args_signature != args_sig:
             keyful_with_shape = self.config.get_keyful_sampler_with_shape()
             flat_sampler, _ = self._make_flat(keyful_with_shape)(
